@@ -9,8 +9,12 @@
 //! verdict, and the listing of the concatenation route.
 use qvh::progwire::{parse_one, pool_or_exit, Pool, Proj};
 use qvh::*;
-use quil_rs::instruction::Instruction;
+use quil_rs::instruction::{
+    Arithmetic, ArithmeticOperand, ArithmeticOperator, CalibrationSignature, Declaration, DefaultHandler, FrameIdentifier,
+    Instruction, JumpWhen, Label, MemoryReference, Move, ScalarType, Target, Vector,
+};
 use quil_rs::quil::Quil;
+use std::collections::HashSet;
 use quil_rs::Program;
 use std::str::FromStr;
 use std::time::Duration;
@@ -49,9 +53,488 @@ fn texts_of(is: &[Instruction]) -> Vec<String> {
     is.iter().map(|i| i.to_quil().expect("printable")).collect()
 }
 
-/// child process: build the program from instruction texts, return its text
+// ---------------------------------------------------------------------------------------------
+// derived programs: program-PRODUCING operations applied to built programs
+// ---------------------------------------------------------------------------------------------
+
+/// A producing operation, parameters only (what the child process needs to repeat it).
+#[derive(Clone, Debug)]
+enum DSpec {
+    Simplify,
+    /// `p.frames = p.frames.intersection(&{frames at these positions})`
+    Intersect(Vec<usize>),
+    Merge,
+    CalExtend,
+    ExtExtend,
+    CalRemove(usize),
+    McalRemove(usize),
+    ExpCal(bool),
+    ExpSeq(u8, bool),
+    Clone,
+    CloneWb,
+    Wrap(u32),
+    Resolve,
+    /// `apply(a, p, q) + apply(b, q, p)`
+    Sum(Box<DSpec>, Box<DSpec>),
+}
+
+fn spec_sexp(s: &DSpec) -> Sexp {
+    match s {
+        DSpec::Simplify => tagged("simplify", vec![]),
+        DSpec::Intersect(ix) => tagged("intersect", ix.iter().map(|i| nat(*i as u64)).collect()),
+        DSpec::Merge => tagged("merge", vec![]),
+        DSpec::CalExtend => tagged("calExtend", vec![]),
+        DSpec::ExtExtend => tagged("extExtend", vec![]),
+        DSpec::CalRemove(i) => tagged("calRemove", vec![nat(*i as u64)]),
+        DSpec::McalRemove(i) => tagged("mcalRemove", vec![nat(*i as u64)]),
+        DSpec::ExpCal(m) => tagged("expCal", vec![boolean(*m)]),
+        DSpec::ExpSeq(f, m) => tagged("expSeq", vec![nat(*f as u64), boolean(*m)]),
+        DSpec::Clone => tagged("clone", vec![]),
+        DSpec::CloneWb => tagged("cloneWb", vec![]),
+        DSpec::Wrap(n) => tagged("wrap", vec![nat(*n as u64)]),
+        DSpec::Resolve => tagged("resolve", vec![]),
+        DSpec::Sum(a, b) => tagged("sum", vec![spec_sexp(a), spec_sexp(b)]),
+    }
+}
+
+fn as_u64(x: &Sexp) -> Option<u64> {
+    match x {
+        Sexp::Atom(a) => a.parse().ok(),
+        _ => None,
+    }
+}
+
+fn spec_parse(x: &Sexp) -> Option<DSpec> {
+    let Sexp::List(v) = x else { return None };
+    let Sexp::Atom(t) = v.first()? else { return None };
+    let b = |x: &Sexp| *x == atom("true");
+    Some(match t.as_str() {
+        "simplify" => DSpec::Simplify,
+        "intersect" => DSpec::Intersect(v[1..].iter().map(|x| as_u64(x).map(|n| n as usize)).collect::<Option<_>>()?),
+        "merge" => DSpec::Merge,
+        "calExtend" => DSpec::CalExtend,
+        "extExtend" => DSpec::ExtExtend,
+        "calRemove" => DSpec::CalRemove(as_u64(v.get(1)?)? as usize),
+        "mcalRemove" => DSpec::McalRemove(as_u64(v.get(1)?)? as usize),
+        "expCal" => DSpec::ExpCal(b(v.get(1)?)),
+        "expSeq" => DSpec::ExpSeq(as_u64(v.get(1)?)? as u8, b(v.get(2)?)),
+        "clone" => DSpec::Clone,
+        "cloneWb" => DSpec::CloneWb,
+        "wrap" => DSpec::Wrap(as_u64(v.get(1)?)? as u32),
+        "resolve" => DSpec::Resolve,
+        "sum" => DSpec::Sum(Box::new(spec_parse(v.get(1)?)?), Box::new(spec_parse(v.get(2)?)?)),
+        _ => return None,
+    })
+}
+
+fn seq_filter(kind: u8) -> impl Fn(&str) -> bool {
+    move |name: &str| match kind {
+        0 => true,
+        1 => false,
+        _ => name.ends_with(|c: char| c.is_ascii_digit() && (c as u8) % 2 == 0),
+    }
+}
+
+fn loop_ref() -> (MemoryReference, Target) {
+    (MemoryReference { name: "loopn".to_string(), index: 0 }, Target::Fixed("loop-start".to_string()))
+}
+
+/// Apply a producing operation to the real program(s); `None` = the operation returned an error.
+fn apply_spec(p: &Program, q: &Program, s: &DSpec) -> Option<Program> {
+    Some(match s {
+        DSpec::Simplify => p.simplify(&DefaultHandler).ok()?,
+        DSpec::Intersect(ix) => {
+            let keys: Vec<&FrameIdentifier> = p.frames.get_keys();
+            // a FRESH HashSet per call (fresh hash seed), as a caller would build it
+            let wanted: HashSet<FrameIdentifier> = ix.iter().filter_map(|i| keys.get(*i).map(|k| (*k).clone())).collect();
+            let mut r = p.clone();
+            r.frames = p.frames.intersection(&wanted);
+            r
+        }
+        DSpec::Merge => {
+            let mut r = p.clone();
+            r.frames.merge(q.frames.clone());
+            r
+        }
+        DSpec::CalExtend => {
+            let mut r = p.clone();
+            r.calibrations.extend(q.calibrations.clone());
+            r
+        }
+        DSpec::ExtExtend => {
+            let mut r = p.clone();
+            r.extern_pragma_map.extend(q.extern_pragma_map.clone());
+            r
+        }
+        DSpec::CalRemove(i) => {
+            let mut r = p.clone();
+            if let Some(c) = p.calibrations.calibrations.iter().nth(*i) {
+                r.calibrations.calibrations.remove(&c.signature());
+            }
+            r
+        }
+        DSpec::McalRemove(i) => {
+            let mut r = p.clone();
+            if let Some(c) = p.calibrations.measure_calibrations.iter().nth(*i) {
+                r.calibrations.measure_calibrations.remove(&c.signature());
+            }
+            r
+        }
+        DSpec::ExpCal(m) => {
+            if *m {
+                p.expand_calibrations_with_source_map().ok()?.0
+            } else {
+                p.expand_calibrations().ok()?
+            }
+        }
+        DSpec::ExpSeq(f, m) => {
+            if *m {
+                p.expand_defgate_sequences_with_source_map(seq_filter(*f)).ok()?.0
+            } else {
+                p.clone().expand_defgate_sequences(seq_filter(*f)).ok()?
+            }
+        }
+        DSpec::Clone => p.clone(),
+        DSpec::CloneWb => p.clone_without_body_instructions(),
+        DSpec::Wrap(n) => {
+            let (r, t) = loop_ref();
+            p.wrap_in_loop(r, t, *n)
+        }
+        DSpec::Resolve => {
+            let mut r = p.clone();
+            r.resolve_placeholders();
+            r
+        }
+        DSpec::Sum(a, b) => apply_spec(p, q, a)? + apply_spec(q, p, b)?,
+    })
+}
+
+fn keys_of(pr: &mut Proj, is: &[Instruction]) -> Sexp {
+    // kept keys cross the wire as a SORTED set: the order of a derived container is the model's business
+    let mut ks: Vec<String> = is.iter().map(|i| pr.kind_key(i).1).collect();
+    ks.sort();
+    list(ks.into_iter().map(st).collect())
+}
+
+fn expansion_output(p: &Program) -> Option<Vec<Instruction>> {
+    let mut out = Vec::new();
+    for i in p.body_instructions() {
+        match p.calibrations.expand(i, &[]) {
+            Ok(Some(v)) => out.extend(v),
+            Ok(None) => out.push(i.clone()),
+            Err(_) => return None,
+        }
+    }
+    Some(out)
+}
+
+/// The operation in the model's vocabulary, with the opaque inputs read off the real run.
+fn dop_sexp(p: &Program, q: &Program, s: &DSpec, pr: &mut Proj) -> Option<Sexp> {
+    Some(match s {
+        DSpec::Simplify => {
+            let r = p.simplify(&DefaultHandler).ok()?;
+            let out = expansion_output(p)?;
+            let waves: Vec<Instruction> = Vec::new();
+            let _ = waves;
+            let mut wk: Vec<String> = r.waveforms.keys().cloned().collect();
+            wk.sort();
+            tagged(
+                "simplify",
+                vec![
+                    pr.instrs(&out),
+                    keys_of(pr, &r.frames.to_instructions()),
+                    list(wk.into_iter().map(st).collect()),
+                    keys_of(pr, &r.extern_pragma_map.to_instructions()),
+                ],
+            )
+        }
+        DSpec::Intersect(ix) => {
+            let fr = p.frames.to_instructions();
+            let kept: Vec<Instruction> = ix.iter().filter_map(|i| fr.get(*i).cloned()).collect();
+            tagged("intersect", vec![keys_of(pr, &kept)])
+        }
+        DSpec::Merge => tagged("merge", vec![]),
+        DSpec::CalExtend => tagged("calExtend", vec![]),
+        DSpec::ExtExtend => tagged("extExtend", vec![]),
+        DSpec::CalRemove(i) => match p.calibrations.calibrations.iter().nth(*i) {
+            Some(c) => tagged("calRemove", vec![st(pr.kind_key(&Instruction::CalibrationDefinition(c.clone())).1)]),
+            None => tagged("clone", vec![]),
+        },
+        DSpec::McalRemove(i) => match p.calibrations.measure_calibrations.iter().nth(*i) {
+            Some(c) => tagged("mcalRemove", vec![st(pr.kind_key(&Instruction::MeasureCalibrationDefinition(c.clone())).1)]),
+            None => tagged("clone", vec![]),
+        },
+        DSpec::ExpCal(_) => tagged("expCal", vec![pr.instrs(&expansion_output(p)?)]),
+        DSpec::ExpSeq(..) => {
+            let r = apply_spec(p, q, s)?;
+            let kept: Vec<Instruction> = r.gate_definitions.values().cloned().map(Instruction::GateDefinition).collect();
+            let body: Vec<Instruction> = r.body_instructions().cloned().collect();
+            tagged("expSeq", vec![keys_of(pr, &kept), pr.instrs(&body)])
+        }
+        DSpec::Clone => tagged("clone", vec![]),
+        DSpec::CloneWb => tagged("cloneWb", vec![]),
+        DSpec::Wrap(n) => {
+            let (r, t) = loop_ref();
+            let hd = vec![
+                Instruction::Declaration(Declaration {
+                    name: r.name.clone(),
+                    size: Vector { data_type: ScalarType::Integer, length: 1 },
+                    sharing: None,
+                }),
+                Instruction::Move(Move { destination: r.clone(), source: ArithmeticOperand::LiteralInteger((*n).into()) }),
+                Instruction::Label(Label { target: t.clone() }),
+            ];
+            let tl = vec![
+                Instruction::Arithmetic(Arithmetic {
+                    operator: ArithmeticOperator::Subtract,
+                    destination: MemoryReference { name: r.name.clone(), index: 0 },
+                    source: ArithmeticOperand::LiteralInteger(1),
+                }),
+                Instruction::JumpWhen(JumpWhen { target: t, condition: r }),
+            ];
+            tagged("wrap", vec![nat(*n as u64), pr.instrs(&hd), pr.instrs(&tl)])
+        }
+        DSpec::Resolve => {
+            let r = apply_spec(p, q, s)?;
+            let body: Vec<Instruction> = r.body_instructions().cloned().collect();
+            tagged("resolve", vec![pr.instrs(&body)])
+        }
+        DSpec::Sum(a, b) => tagged("sum", vec![dop_sexp(p, q, a, pr)?, dop_sexp(q, p, b, pr)?]),
+    })
+}
+
+const REPEATS: usize = 5;
+
+fn observe_derived(pis: &[Instruction], qis: &[Instruction], spec: &DSpec, pr: &mut Proj, iso: Option<&mut Isolated>) -> (Sexp, Sexp) {
+    let p = Program::from_instructions(pis.to_vec());
+    let q = Program::from_instructions(qis.to_vec());
+    let input_op = dop_sexp(&p, &q, spec, pr);
+    let pin = pr.instrs(pis);
+    let qin = pr.instrs(qis);
+    let Some(op) = input_op else {
+        // the operation is an error on this program: nothing is produced, nothing to order
+        return (tagged("derived", vec![pin, qin, tagged("fail", vec![])]), tagged("dfail", vec![boolean(apply_spec(&p, &q, spec).is_none())]));
+    };
+    let input = tagged("derived", vec![pin, qin, op]);
+    let reference = apply_spec(&p, &q, spec).expect("operation succeeded a moment ago");
+    pr.check_map_keys(&reference);
+    let text = reference.to_quil().expect("printable");
+    // the same derivation again, each time on freshly built operands
+    let mut same: Vec<Sexp> = Vec::new();
+    for _ in 0..REPEATS {
+        let p2 = Program::from_instructions(pis.to_vec());
+        let q2 = Program::from_instructions(qis.to_vec());
+        let t2 = apply_spec(&p2, &q2, spec).map(|r| r.to_quil().expect("printable"));
+        same.push(boolean(t2.as_deref() == Some(text.as_str())));
+    }
+    // order-sensitive views of the derived frame set agree with each other
+    let fr = reference.frames.to_instructions();
+    let mut sib: Vec<Sexp> = Vec::new();
+    if reference.frames.clone().into_instructions() != fr {
+        sib.push(st("FrameSet::into_instructions = to_instructions"));
+    }
+    let via_keys: Vec<FrameIdentifier> = reference.frames.get_keys().into_iter().cloned().collect();
+    let via_iter: Vec<FrameIdentifier> = reference.frames.iter().map(|(k, _)| k.clone()).collect();
+    let via_instr: Vec<FrameIdentifier> = fr
+        .iter()
+        .filter_map(|i| if let Instruction::FrameDefinition(f) = i { Some(f.identifier.clone()) } else { None })
+        .collect();
+    if via_keys != via_iter || via_keys != via_instr {
+        sib.push(st("FrameSet::get_keys = iter = to_instructions order"));
+    }
+    if reference.to_quil_or_debug() != text {
+        sib.push(st("to_quil_or_debug = to_quil"));
+    }
+    let payload = tagged(
+        "derived",
+        vec![list(texts_of(pis).into_iter().map(st).collect()), list(texts_of(qis).into_iter().map(st).collect()), spec_sexp(spec)],
+    );
+    let child_same = match iso.map(|iso| iso.call(&payload)) {
+        None => atom("skipped"),
+        Some(Sexp::List(v)) if v.len() == 2 && v[0] == atom("text") => match &v[1] {
+            Sexp::Str(t) => boolean(*t == text),
+            _ => atom("garbled"),
+        },
+        Some(other) => other,
+    };
+    let (left, right) = match spec {
+        DSpec::Sum(a, b) => (
+            apply_spec(&p, &q, a).map(|r| r.to_instructions()).unwrap_or_default(),
+            apply_spec(&q, &p, b).map(|r| r.to_instructions()).unwrap_or_default(),
+        ),
+        _ => (Vec::new(), Vec::new()),
+    };
+    let base = pr.pids(&p.to_instructions());
+    let qbase = pr.pids(&q.to_instructions());
+    let to = pr.pids(&reference.to_instructions());
+    let l = pr.pids(&left);
+    let r = pr.pids(&right);
+    let new = pr.take_new();
+    (
+        input,
+        tagged(
+            "dout",
+            vec![
+                new,
+                tagged("base", vec![base]),
+                tagged("qbase", vec![qbase]),
+                tagged("to", vec![to]),
+                tagged("text", vec![st(text)]),
+                tagged("same", same),
+                tagged("child", vec![child_same]),
+                tagged("left", vec![l]),
+                tagged("right", vec![r]),
+                pr.key_report(),
+                tagged("sib", sib),
+            ],
+        ),
+    )
+}
+
+fn emit_derived(ctx: &mut Ctx, iso: Option<&mut Isolated>, pis: &[Instruction], qis: &[Instruction], spec: &DSpec) {
+    let mut pr = Proj::new();
+    let r = std::panic::catch_unwind(std::panic::AssertUnwindSafe(|| observe_derived(pis, qis, spec, &mut pr, iso)));
+    match r {
+        Ok((input, out)) => ctx.case(input, move || out),
+        Err(e) => {
+            let msg = e.downcast_ref::<String>().cloned().or_else(|| e.downcast_ref::<&str>().map(|s| s.to_string()));
+            ctx.case(tagged("derived", vec![atom("generation-panicked"), st(format!("{spec:?}"))]), move || panic!("{}", msg.unwrap_or_default()))
+        }
+    }
+}
+
+/// A base program for the derived stream: `n` (>= 8) definitions of EVERY kind with distinct keys
+/// (plus a few redefinitions), and body instructions that use a random subset of the frames,
+/// waveforms, externs, calibrations and sequence gates — so that `simplify` keeps some and drops some.
+fn derived_base(rng: &mut Rng, salt: &str) -> Vec<Instruction> {
+    let n = 8 + rng.below(5) as usize;
+    let mut is: Vec<Instruction> = Vec::new();
+    let name = |k: usize| -> String {
+        // names in no particular alphabetical relation to their definition order
+        const N: [&str; 12] = ["kilo", "alpha", "hotel", "delta", "lima", "bravo", "golf", "echo", "india", "charlie", "juliet", "foxtrot"];
+        format!("{}{salt}", N[k % 12])
+    };
+    for k in 0..n {
+        let nm = name(k);
+        is.push(parse_one(&format!("DECLARE m{nm} INTEGER[{}]", k + 1)));
+        is.push(parse_one(&format!("DEFFRAME {} \"{nm}\":\n\tDIRECTION: \"tx\"\n\tINITIAL-FREQUENCY: {}", 10 + k, k + 1)));
+        is.push(parse_one(&format!("DEFWAVEFORM w{nm}:\n\t{}, 0.5", k + 1)));
+        is.push(parse_one(&format!("PRAGMA EXTERN e{nm} \"INTEGER (x : INTEGER)\"")));
+        is.push(parse_one(&format!("DEFCAL G{nm} {}:\n\tPULSE {} \"{nm}\" w{nm}\n\tX {}", 10 + k, 10 + k, 40 + k)));
+        is.push(parse_one(&format!("DEFCAL MEASURE {} dst{nm}:\n\tX {}", 10 + k, 60 + k)));
+        is.push(if k % 2 == 0 {
+            parse_one(&format!("DEFGATE s{nm}{k} a AS SEQUENCE:\n\tX a\n\tZ a"))
+        } else {
+            parse_one(&format!("DEFGATE s{nm}{k}:\n\t1, 0\n\t0, 1"))
+        });
+        is.push(parse_one(&format!("DEFCIRCUIT c{nm} a:\n\tX a")));
+    }
+    // a few redefinitions (must stay in place)
+    for _ in 0..rng.below(4) {
+        let k = rng.below(n as u64) as usize;
+        let nm = name(k);
+        is.push(match rng.below(3) {
+            0 => parse_one(&format!("DEFFRAME {} \"{nm}\":\n\tDIRECTION: \"rx\"", 10 + k)),
+            1 => parse_one(&format!("DEFWAVEFORM w{nm}:\n\t0.25")),
+            _ => parse_one(&format!("PRAGMA EXTERN e{nm} \"REAL (x : REAL)\"")),
+        });
+    }
+    // body: uses a random subset
+    for k in 0..n {
+        let nm = name(k);
+        if rng.chance(1, 2) {
+            is.push(parse_one(&format!("PULSE {} \"{nm}\" w{nm}", 10 + k)));
+        }
+        if rng.chance(1, 3) {
+            is.push(parse_one(&format!("CALL e{nm} m{nm}[0]")));
+        }
+        if rng.chance(1, 3) {
+            is.push(parse_one(&format!("G{nm} {}", 10 + k)));
+        }
+        if rng.chance(1, 3) {
+            is.push(parse_one(&format!("s{nm}{k} {}", 30 + k)));
+        }
+        if rng.chance(1, 4) {
+            is.push(parse_one(&format!("MEASURE {} m{nm}[0]", 10 + k)));
+        }
+    }
+    // shuffle everything (definitions keep their relative first-added order whatever the interleaving)
+    for i in (1..is.len()).rev() {
+        let j = rng.below(i as u64 + 1) as usize;
+        is.swap(i, j);
+    }
+    is
+}
+
+fn derived_specs(rng: &mut Rng, nframes: usize) -> Vec<DSpec> {
+    let subset = |rng: &mut Rng, k: usize| -> Vec<usize> {
+        let mut ix: Vec<usize> = (0..nframes).collect();
+        for i in (1..ix.len()).rev() {
+            let j = rng.below(i as u64 + 1) as usize;
+            ix.swap(i, j);
+        }
+        ix.truncate(k);
+        ix
+    };
+    let simple = |rng: &mut Rng| -> DSpec {
+        match rng.below(8) {
+            0 => DSpec::Simplify,
+            1 => DSpec::ExpCal(rng.chance(1, 2)),
+            2 => DSpec::ExpSeq(rng.below(3) as u8, rng.chance(1, 2)),
+            3 => DSpec::CloneWb,
+            4 => DSpec::Wrap(*rng.pick(&[0u32, 1, 3])),
+            5 => DSpec::Clone,
+            6 => DSpec::Resolve,
+            _ => DSpec::Simplify,
+        }
+    };
+    let k_rand = 2 + rng.below(nframes.saturating_sub(3).max(1) as u64) as usize;
+    vec![
+        DSpec::Simplify,
+        DSpec::Intersect(subset(rng, 0)),
+        DSpec::Intersect(subset(rng, 1)),
+        DSpec::Intersect(subset(rng, k_rand)),
+        DSpec::Intersect(subset(rng, nframes.saturating_sub(1))),
+        DSpec::Intersect(subset(rng, nframes)),
+        DSpec::Merge,
+        DSpec::CalExtend,
+        DSpec::ExtExtend,
+        DSpec::CalRemove(rng.below(8) as usize),
+        DSpec::McalRemove(rng.below(8) as usize),
+        DSpec::ExpCal(false),
+        DSpec::ExpCal(true),
+        DSpec::ExpSeq(rng.below(3) as u8, false),
+        DSpec::ExpSeq(rng.below(3) as u8, true),
+        DSpec::Clone,
+        DSpec::CloneWb,
+        DSpec::Wrap(*rng.pick(&[0u32, 1, 3])),
+        DSpec::Resolve,
+        DSpec::Sum(Box::new(simple(rng)), Box::new(simple(rng))),
+        DSpec::Sum(Box::new(DSpec::Simplify), Box::new(DSpec::Simplify)),
+    ]
+}
+
+/// child process: build the program from instruction texts (and repeat a derivation), return its text
 fn child(payload: &Sexp) -> Sexp {
     let Sexp::List(xs) = payload else { return atom("bad-payload") };
+    if xs.first() == Some(&atom("derived")) {
+        let build = |x: &Sexp| -> Option<Program> {
+            let Sexp::List(ts) = x else { return None };
+            let mut p = Program::new();
+            for t in ts {
+                let Sexp::Str(t) = t else { return None };
+                p.add_instruction(parse_one(t));
+            }
+            Some(p)
+        };
+        let (Some(p), Some(q), Some(spec)) = (xs.get(1).and_then(build), xs.get(2).and_then(build), xs.get(3).and_then(spec_parse)) else {
+            return atom("bad-payload");
+        };
+        return match apply_spec(&p, &q, &spec) {
+            Some(r) => tagged("text", vec![st(r.to_quil().expect("printable"))]),
+            None => atom("operation-failed"),
+        };
+    }
     let mut p = Program::new();
     for x in xs {
         let Sexp::Str(t) = x else { return atom("bad-payload") };
@@ -302,6 +785,23 @@ fn run(ctx: &mut Ctx) {
         rnd += 1;
         let use_child = !ctx.quick() || rnd % 2 == 0;
         emit(ctx, if use_child { Some(&mut iso) } else { None }, is, cuts);
+    }
+
+    // (4) derived programs: every program-producing operation on built programs with >= 8 definitions of
+    // every kind; each derivation repeated 5 times in-process on freshly built operands and (for a third of
+    // the cases in quick, all in thorough) once in the child process
+    let mut rng = ctx.rng(18);
+    let bases = if ctx.quick() { 60 } else { 1_500 };
+    let mut dn = 0u64;
+    for b in 0..bases {
+        let pis = derived_base(&mut rng, "");
+        let qis = derived_base(&mut rng, if b % 2 == 0 { "" } else { "x" });
+        let nframes = Program::from_instructions(pis.clone()).frames.len();
+        for spec in derived_specs(&mut rng, nframes) {
+            dn += 1;
+            let use_child = !ctx.quick() || dn % 3 == 0;
+            emit_derived(ctx, if use_child { Some(&mut iso) } else { None }, &pis, &qis, &spec);
+        }
     }
 }
 
